@@ -368,7 +368,19 @@ pub fn gen_input(seed: u64, index: u64, fx: &Fixtures) -> Input {
                     rng.below(len)
                 }
             };
-            match rng.below(10) {
+            match rng.below(11) {
+                10 => {
+                    // a writer that emits a section with zero items (count 0), which no text tool ever does:
+                    // inserted at a section boundary, for every section id modules and components know
+                    let starts: Vec<usize> = hot.iter().step_by(2).copied().chain(std::iter::once(bytes.len())).collect();
+                    let at = *rng.pick(&starts);
+                    let id = rng.below(14) as u8;
+                    let mut nb = bytes[..at.min(bytes.len())].to_vec();
+                    nb.extend_from_slice(&[id, 1, 0]);
+                    nb.extend_from_slice(&bytes[at.min(bytes.len())..]);
+                    bytes = nb;
+                    faults.push("empty_section_inserted");
+                }
                 0 | 1 => {
                     let k = pos(&mut rng, bytes.len());
                     bytes.truncate(k);
